@@ -21,7 +21,7 @@ def menu(nc):
     return out
 
 
-def mk(name, shares, extra_market=False, index_first=False, shock=True, drift=True, noexec_first=False, nested=False, arb=False):
+def mk(name, shares, extra_market=False, index_first=False, shock=True, drift=True, noexec_first=False, nested=False, arb=False, halt=False):
     nc = len(shares)
     markets = [dict(name="M%d" % i, shares=sh, drift=(2.0 ** -7 if i == 1 and drift else 0.0)) for i, sh in enumerate(shares)]
     markets.append(dict(name="IDX", cls="ProbeIndexMarket", components=["M%d" % i for i in range(nc)]))
@@ -53,6 +53,11 @@ def mk(name, shares, extra_market=False, index_first=False, shock=True, drift=Tr
     if shock:
         ev["SH"] = {"class": "FundamentalPriceShock", "target": "M0", "triggerTime": 2, "priceChangeRate": 0.5, "shockTimeLength": 1}
         s0["events"] = ["SH"]
+    if halt:
+        # a trading halt rule on the first component only: it fires when M0 trades at 104 (4 % off its time-0 price), so for
+        # a while the components of the index are in different running states
+        ev["HALT"] = {"class": "TradingHaltRule", "targetMarkets": ["M0"], "triggerChangeRate": 0.03125, "haltingTimeLength": 2}
+        s0["events"] = s0.get("events", []) + ["HALT"]
     sessions = [S(0, 3, True, True, **s0), S(1, 2, True, True, maxNormalOrders=2)]
     if noexec_first:
         sessions = [S(0, 2, True, False, **s0), S(1, 3, True, True, maxNormalOrders=2)]
@@ -93,6 +98,8 @@ def scenarios(tier):
     sc["nested:2-5-1+X"] = mk("nested:2-5-1+X", (2, 5, 1), nested=True, extra_market=True, noexec_first=True)
     sc["arbitrage_agent_partial_access:2-2"] = mk("arbitrage_agent_partial_access:2-2", (2, 2), arb=True)
     sc["arbitrage_agent_partial_access:5-5-5+X"] = mk("arbitrage_agent_partial_access:5-5-5+X", (5, 5, 5), arb=True, extra_market=True, noexec_first=True)
+    sc["component_halted:1-2"] = mk("component_halted:1-2", (1, 2), halt=True)
+    sc["component_halted:2-5-1+X"] = mk("component_halted:2-5-1+X", (2, 5, 1), halt=True, extra_market=True)
     sc["index_first:1-2-5"] = mk("index_first:1-2-5", (1, 2, 5), index_first=True)
     sc["index_first:2-5+X"] = mk("index_first:2-5+X", (2, 5), extra_market=True, index_first=True)
     return sc
@@ -124,7 +131,9 @@ def invalid_component_sets(res):
 
 D_OPS = [("eval",), ("adv",), ("add",), ("shares", 0, 5), ("shares", 1, 1), ("trade", 0, 104.0), ("trade", 1, 96.0), ("trade", 2, 108.0),
          # resting quotes: a never-traded component's market price follows its mid price, which moves without any fill
-         ("quote", 0, 98.0, 106.0), ("quote", 1, 94.0, 100.0), ("bid", 0, 102.0)]
+         ("quote", 0, 98.0, 106.0), ("quote", 1, 94.0, 100.0), ("bid", 0, 102.0),
+         # a component stopped / restarted while the others keep running
+         ("run", 0), ("run", 1)]
 
 
 class DWorld:
@@ -179,11 +188,16 @@ class DWorld:
                 return False
             self.ms[op[1]].outstanding_shares = op[2]
             self.wit.inc("shares_revised_after_evaluation")
+        elif k in ("trade", "quote", "bid") and not self.ms[op[1]].is_running:
+            return False  # no matching on a stopped market
         elif k == "trade":
             m = self.ms[op[1]]
             m._add_order(self.Order(0, m.market_id, True, self.LIMIT, 1, price=op[2]))
             m._add_order(self.Order(0, m.market_id, False, self.LIMIT, 1, price=op[2]))
             m._execution()
+        elif k == "run":
+            self.ms[op[1]]._is_running = not self.ms[op[1]]._is_running
+            self.wit.inc("component_running_state_changed")
         elif k == "quote":
             m = self.ms[op[1]]
             if m.get_best_buy_price() is not None or m.get_best_sell_price() is not None:
@@ -220,7 +234,7 @@ class DWorld:
         idx = self.idx
         t = idx.get_time()
         return (t, self.added, tuple(m.outstanding_shares for m in self.ms), tuple(tuple(m.get_market_prices()) for m in self.ms),
-                tuple((m.get_best_buy_price(), m.get_best_sell_price()) for m in self.ms))
+                tuple((m.get_best_buy_price(), m.get_best_sell_price()) for m in self.ms), tuple(m.is_running for m in self.ms))
 
 
 def direct_search(res, depth):
